@@ -1,4 +1,5 @@
 import DK.Driver.Tree
+import DK.Model.TreeFind
 /-!
 Numeric-only renderings of tree operations for the C02 / C13 correspondence checks.
 
@@ -7,6 +8,8 @@ constraint lists are lists of records, so this file re-renders them as flat list
 
 * `treex.labels` — every label as its character codes followed by `-1`;
 * `treex.map`    — for every row: the label's character codes, `-1`, then the `n` entries of the row;
+* `treex.find`   — the rows whose label ends with `name` (`Tree.getCandidates`, plain string suffix), in row order;
+* `treex.get`    — the first of those rows (what `get(name)` returns), as a list of length ≤ 1;
 * `treex.cons`   — the constraint list at a flow `S` with a probe direction `D`, as three sorted
   projections (so that the comparison is insensitive to the order of the list, which the property
   does not fix): `(code, fun S)`, `(code, jac S · D)`, `(code, fun S + jac S · D)` where
@@ -43,6 +46,12 @@ def treexOp (op : String) (j : Json) : Except String Json := do
         (code, v, jd))
       pure (.arr (rPairs (cs.map (fun x => (x.1, x.2.1))) ++ rPairs (cs.map (fun x => (x.1, x.2.2)))
         ++ rPairs (cs.map (fun x => (x.1, x.2.1 + x.2.2)))).toArray)
+  | "treex.find" => do
+      let name ← (← fld j "name").getStr?
+      pure (.arr ((t.getCandidates name).map (fun kl => toJson kl.1)).toArray)
+  | "treex.get" => do
+      let name ← (← fld j "name").getStr?
+      pure (.arr (match (t.getCandidates name).head? with | some kl => #[toJson kl.1] | none => #[]))
   | _ => throw s!"unknown op {op}"
 
 end DK.Driver
